@@ -405,26 +405,22 @@ func (r *relay) header(
 	streamEnded bool,
 	priority http2.PriorityParam,
 ) error {
-	encoded, err := r.encodeFull(headers)
-	if err != nil {
-		return fmt.Errorf("encoding headers %v: %w", headers, err)
-	}
-
-	maxPayloadLength := atomic.LoadUint32(&r.maxFrameSize)
 	// Padding is not implemented because the extra security is not needed for a development proxy.
 	// If it were used, a single padding length octet should be deducted from the max header fragment
 	// length.
-	maxHeaderFragmentLength := maxPayloadLength
+	var metadataLength uint32
 	if !priority.IsZero() {
-		maxHeaderFragmentLength -= headersPriorityMetadataLength
+		metadataLength = headersPriorityMetadataLength
 	}
-	chunks := splitIntoChunks(int(maxHeaderFragmentLength), int(maxPayloadLength), encoded)
 
 	r.enqueueFrame(&queuedHeaderFrame{
 		streamID:  id,
 		endStream: streamEnded,
 		priority:  priority,
-		chunks:    chunks,
+		headers:   headers,
+		encode: func(headers []hpack.HeaderField) ([][]byte, error) {
+			return r.encodeChunks(headers, metadataLength)
+		},
 	})
 	return nil
 }
@@ -444,21 +440,29 @@ func (r *relay) rstStream(id uint32, errCode http2.ErrCode) {
 }
 
 func (r *relay) pushPromise(id, promiseID uint32, headers []hpack.HeaderField) error {
-	encoded, err := r.encodeFull(headers)
-	if err != nil {
-		return fmt.Errorf("encoding push promise headers %v: %w", headers, err)
-	}
-
-	maxPayloadLength := atomic.LoadUint32(&r.maxFrameSize)
-	maxHeaderFragmentLength := maxPayloadLength - pushPromiseMetadataLength
-	chunks := splitIntoChunks(int(maxHeaderFragmentLength), int(maxPayloadLength), encoded)
-
 	r.enqueueFrame(&queuedPushPromiseFrame{
 		streamID:  id,
 		promiseID: promiseID,
-		chunks:    chunks,
+		headers:   headers,
+		encode: func(headers []hpack.HeaderField) ([][]byte, error) {
+			return r.encodeChunks(headers, pushPromiseMetadataLength)
+		},
 	})
 	return nil
+}
+
+// encodeChunks HPACK-encodes headers and splits the block into fragments that fit the
+// destination's frame size. Queued header blocks call it when they are written, not when they are
+// queued: a block can wait behind flow-controlled DATA of its stream while blocks of other streams
+// overtake it, and the encoder's dynamic table must change in the order the destination decodes.
+func (r *relay) encodeChunks(headers []hpack.HeaderField, metadataLength uint32) ([][]byte, error) {
+	encoded, err := r.encodeFull(headers)
+	if err != nil {
+		return nil, fmt.Errorf("encoding headers %v: %w", headers, err)
+	}
+	maxPayloadLength := atomic.LoadUint32(&r.maxFrameSize)
+	maxHeaderFragmentLength := maxPayloadLength - metadataLength
+	return splitIntoChunks(int(maxHeaderFragmentLength), int(maxPayloadLength), encoded), nil
 }
 
 func (r *relay) enqueueFrame(f queuedFrame) {
